@@ -69,23 +69,31 @@ Proof.
 Qed.
 
 (* What P_b = true says about a case, in terms of the documented precedence only. *)
-Definition case_ok (c : case) : Prop :=
+Definition case_ok_with (spec : config -> validator -> N -> N -> outcome) (c : case) : Prop :=
   match unmarshal (c_doc c) with
   | None => c_ok1 c = false                               (* a document without meaning is refused *)
   | Some cfg =>
       c_ok1 c = true /\
-      Forall2 outcome_equiv (map (fun v => resolve cfg v (c_fbfee c) (c_fbgas c)) (c_vals c)) (c_out1 c) /\
+      Forall2 outcome_equiv (map (fun v => spec cfg v (c_fbfee c) (c_fbgas c)) (c_vals c)) (c_out1 c) /\
       Forall2 outcome_equiv (c_out1 c) (c_shown c) /\
       c_ok2 c = true /\
       Forall2 outcome_equiv (c_out1 c) (c_out2 c)
   end.
 
-Lemma P_b_sound : forall c, P_b c = true -> case_ok c.
+Definition case_ok (c : case) : Prop :=
+  if c_v1_per_value c then case_ok_with resolve_doc c else case_ok_with resolve c.
+
+Lemma P_with_sound : forall spec c, P_with spec c = true -> case_ok_with spec c.
 Proof.
-  intros c H. unfold P_b in H. unfold case_ok. destruct (unmarshal (c_doc c)) as [cfg|].
+  intros spec c H. unfold P_with in H. unfold case_ok_with. destruct (unmarshal (c_doc c)) as [cfg|].
   - repeat (apply andb_true_iff in H as [H ?]).
     repeat split; try assumption; apply outcomes_eqb_sound; assumption.
   - apply negb_true_iff, H.
+Qed.
+
+Lemma P_b_sound : forall c, P_b c = true -> case_ok c.
+Proof.
+  intros c H. unfold P_b in H. unfold case_ok. destruct (c_v1_per_value c); apply P_with_sound, H.
 Qed.
 
 (* the well-formedness test of [agree] is the hypothesis of the theorems *)
